@@ -105,11 +105,23 @@ def p_seam(rnd):
     return _near_arc(rnd, a, b)
 
 
+def p_equator(rnd):
+    """next to (or on) the equator: latitude +-10^u degrees, u in -13..0"""
+    lat = 10 ** rnd.uniform(-13, 0) * rnd.choice((-1, 1))
+    if rnd.random() < 0.05:
+        lat = rnd.choice((0.0, -0.0))
+    lon = rnd.uniform(-180, 180) if rnd.random() < 0.7 else (-3.0 + 36 * rnd.randrange(10)) + rnd.choice((0.0, 10 ** rnd.uniform(-12, -3)))
+    return (lon, lat)
+
+
 def p_antimeridian(rnd):
     d = 10 ** rnd.uniform(-12, 1) * rnd.choice((-1, 1))
     # +-180 and the meridians where the library's internal azimuth (lon + 93 deg) wraps or is zero
     base = rnd.choice((180.0, -180.0, 180.0, -180.0, 87.0, -93.0, -273.0))
     lat = math.degrees(math.asin(rnd.uniform(-1, 1)))
+    if rnd.random() < 0.15:
+        # the antimeridian (or an internal azimuth cut) next to a pole
+        lat = (90.0 - math.degrees(10 ** rnd.uniform(-10, -1))) * rnd.choice((-1, 1))
     if rnd.random() < 0.05:
         d = 0.0
     return (base + d, lat)
@@ -153,7 +165,7 @@ def p_hug(rnd, a5, r=None):
 
 
 POINT_GENS = {'uniform': p_uniform, 'polar': p_polar, 'frame': p_frame, 'antimeridian': p_antimeridian, 'wide': p_wide,
-              'edge': p_edge, 'seam': p_seam}
+              'edge': p_edge, 'seam': p_seam, 'equator': p_equator}
 
 
 def point(rnd, a5, kind, r=None):
